@@ -115,6 +115,7 @@ func Load(repo string, whole bool, overlay map[string][]byte) (*World, error) {
 			w.fnByObj[org.Object()] = append(w.fnByObj[org.Object()], fn)
 		}
 	}
+	gWorld = w
 	return w, nil
 }
 
